@@ -257,6 +257,11 @@ def run_rx(ctx, specs, infos, behs, label, monitor="Mon_Receiver", chunk_size=40
                                        "line": h["op"], "witness": h, "behaviour": behs[h["beh"]] if 0 <= h["beh"] < len(behs) else None,
                                        "session": specs[behs[h["beh"]].get("sid", 0)] if 0 <= h["beh"] < len(behs) else None,
                                        "sessions": {str(x[0]): specs[x[0]] for x in behs[h["beh"]].get("streams", [])} if 0 <= h["beh"] < len(behs) else {}, "source": label})
+            for st in res["tagged"].get("STAT", []):
+                if isinstance(st, dict):
+                    for k_ in ("acc", "rec", "del", "fail"):
+                        tot.setdefault("objects_" + k_, 0)
+                        tot["objects_" + k_] += st.get(k_, 0)
             for v in res["viol"]:
                 v = dict(v)
                 bid = v.get("beh")
